@@ -181,7 +181,7 @@ fn e2e() -> BoxedStrategy<E2E> {
 }
 
 pub fn run(ctx: &Ctx, rep: &Report) {
-    run_prop(ctx, rep, "net-e2e", ctx.tier.pick(600, 12_000), &|| e2e(), &check);
+    run_prop(ctx, rep, "net-e2e", ctx.tier.pick(600, 40_000), &|| e2e(), &check);
 }
 
 pub fn replay(sub: &str, case: &Value) -> Result<(), Fail> {
